@@ -7,7 +7,7 @@ from .. import conv
 from ..ref import fields as F
 from ..ref import pairing as PR
 from ..runner import Sub, expect
-from ..wk import FREE, HIDDEN, Attrs, apply_attrs, fixed_of, free_of
+from ..wk import FREE, HIDDEN, Attrs, apply_attrs, fixed_of, free_of  # noqa: F401
 from . import c11
 
 RULE = ("Generated: a delegation history (C11 generator), a key of it, and one probe: (a) a ciphertext attribute list that differs "
@@ -30,7 +30,7 @@ def cases(draw):
     nkeys = sum(1 for s_ in h["steps"] if s_["op"] in ("keygen", "nd_keygen", "qualify", "nd_qualify", "resample"))
     key = nkeys - 1 if draw(st.integers(0, 4)) else draw(st.integers(0, 7))
     return {"h": h, "probe": probe, "key": key, "slot": draw(st.integers(0, 7)), "v": draw(c11.value()),
-            "via": draw(st.sampled_from(("qualify", "nd_qualify", "adjust"))), "comp": draw(st.sampled_from(("a", "b", "c"))),
+            "via": draw(st.sampled_from(("qualify", "nd_qualify", "adjust", "set_then_hide"))), "comp": draw(st.sampled_from(("a", "b", "c"))),
             "stream": draw(st.binary(min_size=0, max_size=40)), "seed": draw(st.integers(0, 2**32))}
 
 
@@ -98,7 +98,33 @@ def check(ctx, lib, c):
                 nk = W.qualify(ex.params, k["h"], Attrs(plain), l - len(plain), nondelegable=True)
                 expect(W.decrypt(ct, sk=nk) == msg, "decrypt/flagged-attribute-value-changed", lambda: "a key for %r does not open a ciphertext for %r" % (plain, ent3))
             return
+        if probe == "fill_hidden" and c["via"] == "set_then_hide":
+            # a slot that was SET in one non-delegable qualification and is HIDDEN by a later adjustment must not be fillable
+            free = free_of(pat)
+            if not free or v % R == 0:
+                ctx.count(c, False, "probe-fill_hidden:not-applicable")
+                return
+            i = free[slot % len(free)]
+            set_list = sorted(dict(fixed + [(i, v)]).items())
+            hide_list = sorted(dict(fixed + [(i, None)]).items(), key=lambda t: t[0])
+            kl = W.get(2, k["h"], 2)
+            nk0 = W.qualify(ex.params, k["h"], Attrs(set_list), l - len(set_list), nondelegable=True)
+            nk = ex.clone_sk(nk0, kl)
+            W.adjust_nd(nk, k["h"], Attrs(set_list), Attrs(hide_list))
+            expect(W.sk_guard(nk) == 0, "adjust/set-then-hide/overrun", "wrote beyond the documented allocation")
+            v2 = (v + 1) % R or 2
+            target = sorted(dict(fixed + [(i, v2)]).items())
+            nk2 = W.qualify(ex.params, nk, Attrs(target), l - len(target), nondelegable=True)
+            ct = W.encrypt(msg, ex.params, Attrs(target))
+            ctx.count(c, True, "probe-fill_hidden:set_then_hide")
+            expect(W.decrypt(ct, sk=nk2) != msg, "adjust/hidden-slot-filled-after-set-then-hide", lambda: "parent pattern=%r: slot %d set by %r, hidden by adjustment, then filled with %r" % (pat, i, set_list, target))
+            # positive control: the adjusted key still opens ciphertexts for its own pattern
+            ct0 = W.encrypt(msg, ex.params, Attrs(fixed))
+            expect(W.decrypt(ct0, sk=nk) == msg, "adjust/set-then-hide/positive-control", lambda: "pattern=%r" % (pat,))
+            return
         if probe == "fill_hidden":
+            if c["via"] == "set_then_hide":
+                c = dict(c, via="adjust")
             hidden = [i for i, s in enumerate(pat) if s == HIDDEN]
             if not hidden or v % R == 0:
                 ctx.count(c, False, "probe-fill_hidden:not-applicable")
